@@ -417,6 +417,7 @@ func init() {
 // the requests reach it.
 func c04WireStream(L int, tcp bool) func() {
 	return func() {
+		defer logChoice()()
 		w := vnet.Reset()
 		var ep *vnet.Endpoint
 		w.OnCreate = func(e *vnet.Endpoint) {
@@ -496,6 +497,7 @@ func init() {
 // UDP and TCP.
 func c04EveryPair(tcp bool) func() {
 	return func() {
+		defer logChoice()()
 		network := "udp"
 		if tcp {
 			network = "tcp"
